@@ -408,6 +408,16 @@ fn explore(ctx: &Ctx) -> Outcome {
                     f7.push(Case { cfg, title: "t".into(), entries: vec![(format!("MPID_{}", x), "1".into()), (format!("MPID_{}", y), "2".into()), (x.clone(), y.clone())], loaded: None });
                 }
             }
+            // key pairs that collide under common 32-bit hashes / stand in a suffix relation
+            let mut pairs: Vec<(String, String)> = vcore::collide::pairs().iter().map(|(_, a, b)| (a.clone(), b.clone())).collect();
+            pairs.extend(sjis::suffix_pairs());
+            for (a, b) in pairs {
+                if a.is_empty() || b.is_empty() {
+                    continue;
+                }
+                f7.push(Case { cfg, title: a.clone(), entries: vec![(a.clone(), "first".into()), (b.clone(), "second".into()), ("K".into(), b.clone())], loaded: None });
+                f7.push(Case { cfg, title: b.clone(), entries: vec![(b.clone(), a.clone()), (a.clone(), b.clone())], loaded: None });
+            }
             for k in 0..=dl {
                 let unit = if cfg.fmt == Fmt::Unicode { "aé日😀" } else { "a日ｿソn" };
                 let m: String = unit.chars().cycle().take(k).collect();
@@ -422,6 +432,32 @@ fn explore(ctx: &Ctx) -> Outcome {
             }
         }
     }
+    // archives whose total FILE size is 0x00010100 (= 65 792: the same four bytes in either byte
+    // order) and twice that, and the sizes next to them — a reader that guesses the byte order
+    // from the size word cannot tell them apart
+    for cfg in CFGS {
+        for target in [0x10100usize, 0x20200] {
+            let build = |l: usize| -> Case { Case { cfg, title: "t".into(), entries: vec![("MID_A".into(), "first".into()), ("MID_LONG".into(), "abcdefgh".chars().cycle().take(l).collect()), ("MID_Z".into(), "z".into())], loaded: None } };
+            let size_of = |c: &Case| -> Option<usize> {
+                let mut a = TextArchive::new(mfmt(c.cfg.fmt), mend(c.cfg.e));
+                a.set_title(c.title.clone());
+                for (k, m) in &c.entries {
+                    a.set_message(k, m);
+                }
+                a.serialize().ok().map(|b| b.len())
+            };
+            let per_char = if cfg.fmt == Fmt::Unicode { 2 } else { 1 };
+            if let Some(s0) = size_of(&build(8)) {
+                if target > s0 {
+                    let l = 8 + (target - s0) / per_char;
+                    for dl in [0usize, 1, 2, 3, 4] {
+                        let c = build(l.saturating_sub(2) + dl);
+                        f7.push(c);
+                    }
+                }
+            }
+        }
+    }
     let t = f7
         .par_iter()
         .fold(Tally::new, |mut t, c| {
@@ -431,6 +467,8 @@ fn explore(ctx: &Ctx) -> Outcome {
                 let mut cj = case_json(c);
                 if c.entries.len() > 6 {
                     cj = json!({"dense_entries": c.entries.len(), "fmt": format!("{:?}", c.cfg.fmt), "endian": format!("{:?}", c.cfg.e)});
+                } else if c.entries.iter().any(|e| e.1.len() > 40_000) {
+                    cj = json!({"sized_message_chars": c.entries[1].1.chars().count(), "fmt": format!("{:?}", c.cfg.fmt), "endian": format!("{:?}", c.cfg.e)});
                 }
                 t.violate(sig, summary.chars().take(500).collect::<String>(), cj);
             }
@@ -508,6 +546,13 @@ fn replay(ctx: &Ctx, case: &Value) -> Vec<Violation> {
         // scale cases are regenerated: re-run the whole (small) scale family
         let o = explore_scale_only(ctx);
         return o;
+    }
+    if let Some(l) = case["sized_message_chars"].as_u64() {
+        let fmt = if case["fmt"] == "ShiftJis" { Fmt::ShiftJis } else { Fmt::Unicode };
+        let e = if case["endian"] == "Big" { End::Big } else { End::Little };
+        let c = Case { cfg: Cfg { fmt, e }, title: "t".into(), entries: vec![("MID_A".into(), "first".into()), ("MID_LONG".into(), "abcdefgh".chars().cycle().take(l as usize).collect()), ("MID_Z".into(), "z".into())], loaded: None };
+        let mut t = Tally::new();
+        return judge(&c, &mut t).map(|(sig, summary)| vec![Violation { sig, summary: summary.chars().take(500).collect(), case: case.clone() }]).unwrap_or_default();
     }
     if let Some(n) = case["dense_entries"].as_u64() {
         let fmt = if case["fmt"] == "ShiftJis" { Fmt::ShiftJis } else { Fmt::Unicode };
